@@ -247,6 +247,14 @@ def Ellipse.near (e : Ellipse) (p : Pt) (ε : Rat) : Bool :=
   let f := ellF (e.loc p).1 (e.loc p).2 e.rx e.ry
   decide (f ≤ (1 + t) * (1 + t)) && (decide (1 - t ≤ 0) || decide ((1 - t) * (1 - t) ≤ f))
 
+/-- What the un-rotated branches ignore when they are taken for a tilt `δ ≤ 1e-9`, as a band width:
+`2·|sin δ|·max(rx,ry)²/min(rx,ry)` (0 for exact quarter turns and in the general branch). -/
+def Ellipse.branchTol (e : Ellipse) : Rat :=
+  match branchOf e.c e.s with
+  | .axis => 2 * (if e.s < 0 then -e.s else e.s) * (rmax e.rx e.ry * rmax e.rx e.ry) / rmin e.rx e.ry
+  | .quarter => 2 * (if e.c < 0 then -e.c else e.c) * (rmax e.rx e.ry * rmax e.rx e.ry) / rmin e.rx e.ry
+  | .general => 0
+
 /-! ## Polygon: matplotlib's crossing test and glue's bounding-box prefilter -/
 
 /-- One edge `a → b` of the Haines crossing test used by matplotlib's `point_in_path`:
